@@ -128,6 +128,13 @@ func genFaultLine(thorough bool) Gen {
 			{"return-index", func() Stat { return Return(nf()) }, true},
 			{"return-tailcall", func() Stat { return Return(CallN("nilv")) }, true},
 			{"return-call2", func() Stat { return Return(Num(1), CallN("nilv")) }, true},
+			// tail calls whose callee is a host function (the calling frame stays: a host function is
+			// not entered by replacing a frame) or a Lua function that blames its caller
+			{"return-error1", func() Stat { return Return(CallN("error", Str("m"))) }, true},
+			{"return-error1x", func() Stat { return Return(CallN("error", Str("m"), Num(1))) }, true},
+			{"return-error2", func() Stat { return Return(CallN("error", Str("m"), Num(2))) }, true},
+			{"return-hostarg", func() Stat { return Return(CallN("setmetatable", Num(1), Num(2))) }, true},
+			{"return-level2", func() Stat { return Return(CallN("callee", Num(1))) }, true},
 			{"genfor-nil", func() Stat { return GenFor(names("k"), []Expr{Name("nilv")}, Emit(Name("k"))) }, false},
 			{"hostarg", func() Stat { return CallS(Name("setmetatable"), Num(1), Num(2)) }, false},
 			{"assign-multi", func() Stat { return Assign([]Expr{Dot(Name("obj"), "p"), Dot(Name("obj"), "q")}, Num(1), nf()) }, false},
@@ -145,6 +152,11 @@ func genFaultLine(thorough bool) Gen {
 			{"repeat", func(s Stat) []Stat { return []Stat{Repeat(True(), s)} }},
 			{"do", func(s Stat) []Stat { return []Stat{Do(Local1("z", Num(1)), s)} }},
 			{"inner", func(s Stat) []Stat { return []Stat{LocalFunc("inner", Func(nil, false, s)), CallS(Name("inner"))} }},
+			// the faulting function was itself reached by one / two tail calls
+			{"tail-reached", func(s Stat) []Stat { return []Stat{LocalFunc("inner", Func(nil, false, s)), Return(CallN("inner"))} }},
+			{"tail-reached-twice", func(s Stat) []Stat {
+				return []Stat{LocalFunc("inner", Func(nil, false, Emit(Str("inner")), s)), LocalFunc("mid", Func(nil, false, Return(CallN("inner")))), Return(CallN("mid"))}
+			}},
 			{"after-longstring", func(s Stat) []Stat { return []Stat{Local1("ls", &StrExpr{V: "a\nb\nc", Raw: "[[a\nb\nc]]"}), s} }},
 			{"after-longstring-eq", func(s Stat) []Stat {
 				return []Stat{Local1("ls", &StrExpr{V: "a]=\nb]\nc]==\nd", Raw: "[===[a]=\nb]\nc]==\nd]===]"}), Local1("l2", &StrExpr{V: "x]\n", Raw: "[=[x]\n]=]"}), s}
